@@ -1,1 +1,181 @@
-def main : IO Unit := IO.println "driver C05: not built yet"
+import VncModel.Basic.Proto
+import VncModel.Auth.Model
+import VncModel.Des.Des
+import VncModel.Des.Weak
+/-! Line-protocol driver for the authentication model (C05). Same script as harness/c05.c.
+`mode unfixed` switches to the behaviour of the code before fixes/C05-*.diff (used only to validate
+the unfixed variant of the model against an unfixed tree; the check always runs `fixed`). -/
+open VncModel VncModel.Auth VncModel.Proto
+
+structure DState where
+  fixed : Bool := true
+  screens : List Screen := []
+  proc : Proc := {}
+  ever : List Nat := []                 -- connection ids in increasing order
+  reported : List (Nat × Nat) := []     -- cid ↦ number of sent messages already printed
+
+def be32 (n : Nat) : List UInt8 :=
+  [UInt8.ofNat (n / 16777216), UInt8.ofNat (n / 65536), UInt8.ofNat (n / 256), UInt8.ofNat n]
+
+def wire (scr : Option Screen) : Msg → List UInt8
+  | .version => "RFB 003.008\n".toUTF8.toList
+  | .secTypes l => UInt8.ofNat l.length :: l.map UInt8.ofNat
+  | .secType33 t => be32 t
+  | .challenge c => c
+  | .secResult ok => be32 (if ok then Gen.C05.rfbVncAuthOK else Gen.C05.rfbVncAuthFailed)
+  | .reason s => be32 s.length ++ s
+  | .serverInit => match scr with | some s => s.serverInit | none => []
+
+def envOf (fixed : Bool) : Env :=
+  { enc := if fixed then Des.rfbEncryptBytes else Des.rfbEncryptBytesUnfixed
+    decFile := Des.decryptPasswdFile Gen.C05.fixedkey
+    parseVer := parseVersion }
+
+def stName : St → String
+  | .ver => "ver" | .sec => "sec" | .auth => "auth" | .init => "init" | .initShared => "initsh"
+  | .normal => "normal"
+
+def insertSorted (x : Nat) : List Nat → List Nat
+  | [] => [x]
+  | y :: ys => if x ≤ y then x :: y :: ys else y :: insertSorted x ys
+
+def reportedOf (s : DState) (cid : Nat) : Nat :=
+  match s.reported.find? (fun p => p.1 == cid) with
+  | some p => p.2
+  | none => 0
+
+/-- observation line of one connection; marks everything sent so far as printed -/
+def obs (s : DState) (cid : Nat) : DState × String :=
+  match getConn s.proc cid with
+  | none => (s, s!"c{cid} gone out=-")
+  | some c =>
+    let k := reportedOf s cid
+    let fresh := (c.sent.take (c.sent.length - k)).reverse
+    let bytes := fresh.flatMap (wire s.screens[c.screen]?)
+    let line := s!"c{cid} {stName c.st} {if c.isOpen then "open" else "closed"} vo={if c.viewOnly then 1 else 0} out={hex bytes}"
+    ({ s with reported := (cid, c.sent.length) :: s.reported.filter (fun p => p.1 != cid) }, line)
+
+def ev (s : DState) (e : Ev) : DState :=
+  { s with proc := step s.fixed (envOf s.fixed) s.screens s.proc e }
+
+/-- the harness calls rfbProcessClientMessage while the message the state expects is complete -/
+def pump (s : DState) (cid : Nat) : Nat → DState
+  | 0 => s
+  | fuel + 1 =>
+    match getConn s.proc cid with
+    | none => s
+    | some c =>
+      if c.isOpen && c.st != .normal && c.st != .initShared && need c.st ≤ c.inbuf.length then
+        pump (ev s (.proc cid)) cid fuel
+      else s
+
+def b? (s : String) : Option Bool := if s = "1" then some true else if s = "0" then some false else none
+
+def unhexAll (l : List String) : Option (List (List UInt8)) := l.mapM unhex?
+
+def dstep (s : DState) (toks : List String) : DState × List String :=
+  match toks with
+  | ["mode", m] =>
+    if m = "fixed" then ({ s with fixed := true }, ["ok"])
+    else if m = "unfixed" then ({ s with fixed := false }, ["ok"])
+    else (s, ["bad-op"])
+  | "screen" :: sid :: kind :: rest =>
+    match sid.toNat? with
+    | none => (s, ["bad-op"])
+    | some sid =>
+      if sid ≠ s.screens.length || sid ≥ 8 then (s, ["bad-op"]) else
+      match kind, rest with
+      | "none", [si] =>
+        match unhex? si with
+        | some si => ({ s with screens := s.screens ++ [{ pw := .none, serverInit := si }] }, ["ok"])
+        | none => (s, ["bad-op"])
+      | "list", fvo :: si :: pws =>
+        match parseInt? fvo, unhex? si, unhexAll pws with
+        | some fvo, some si, some pws =>
+          if pws.length > 16 || pws.any (fun p => p.contains 0) then (s, ["bad-op"]) else
+          ({ s with screens := s.screens ++ [{ pw := .list pws fvo, serverInit := si }] }, ["ok"])
+        | _, _, _ => (s, ["bad-op"])
+      | "file", [si, f] =>
+        match unhex? si, (if f = "missing" then some none else (unhex? f).map some) with
+        | some si, some content =>
+          ({ s with screens := s.screens ++ [{ pw := .file content, serverInit := si }] }, ["ok"])
+        | _, _ => (s, ["bad-op"])
+      | _, _ => (s, ["bad-op"])
+  | ["rand", h] =>
+    match unhex? h with
+    | some r => if r.length = 16 then (ev s (.setRand r), ["ok"]) else (s, ["bad-op"])
+    | none => (s, ["bad-op"])
+  | ["conn", cid, sid, rev, pre] =>
+    match cid.toNat?, sid.toNat?, parseInt? rev, unhex? pre with
+    | some cid, some sid, some rev, some pre =>
+      if cid ≥ 64 || s.ever.contains cid || sid ≥ s.screens.length ||
+         (pre.length > 0 && pre.take 4 ≠ [82, 70, 66, 32]) then (s, ["bad-op"]) else
+      let s := { s with ever := insertSorted cid s.ever }
+      let s := ev s (.connect cid sid (rev ≠ 0))
+      let s := ev s (.recv cid pre)
+      let s := pump s cid 64
+      let (s, l) := obs s cid
+      (s, [l])
+    | _, _, _, _ => (s, ["bad-op"])
+  | [op, cid, h] =>
+    if op = "send" || op = "sendnp" then
+      match cid.toNat?, unhex? h with
+      | some cid, some bytes =>
+        if !s.ever.contains cid then (s, ["bad-op"]) else
+        let s := ev s (.recv cid bytes)
+        let s := if op = "send" then pump s cid 64 else s
+        let (s, l) := obs s cid
+        (s, [l])
+      | _, _ => (s, ["bad-op"])
+    else if op = "des" || op = "undes" || op = "refdes" then
+      match unhex? cid, unhex? h with
+      | some key, some data =>
+        if key.length ≠ 8 || data.length % 8 ≠ 0 then (s, ["bad-op"]) else
+        if op = "refdes" then (s, [hex (Des.ecb (Des.encryptBlock key) data)])
+        else if !s.fixed && Des.gcryRefuses (key.map Des.reverseByte) then (s, [s!"0 {hex data}"])
+        else if op = "des" then (s, [s!"1 {hex (Des.encryptRfbDes key data)}"])
+        else (s, [s!"1 {hex (Des.decryptRfbDes key data)}"])
+      | _, _ => (s, ["bad-op"])
+    else if op = "encb" then
+      match unhex? cid, unhex? h with
+      | some pw, some ch =>
+        if pw.contains 0 || ch.length ≠ 16 then (s, ["bad-op"])
+        else (s, [hex ((envOf s.fixed).enc pw ch)])
+      | _, _ => (s, ["bad-op"])
+    else (s, ["bad-op"])
+  | ["proc", cid] =>
+    match cid.toNat? with
+    | some cid =>
+      if !s.ever.contains cid then (s, ["bad-op"]) else
+      let s := ev s (.proc cid)
+      let (s, l) := obs s cid
+      (s, [l])
+    | none => (s, ["bad-op"])
+  | ["close", cid] =>
+    match cid.toNat? with
+    | some cid =>
+      if !s.ever.contains cid then (s, ["bad-op"]) else
+      let s := ev s (.peerClose cid)
+      let (s, l) := obs s cid
+      (s, [l])
+    | none => (s, ["bad-op"])
+  | ["state"] =>
+    if s.ever.isEmpty then (s, ["-"]) else
+    (s, [" ".intercalate (s.ever.map (fun cid =>
+      match getConn s.proc cid with
+      | none => s!"{cid}:gone"
+      | some c => s!"{cid}:{stName c.st}:{if c.isOpen then "open" else "closed"}:{if c.viewOnly then 1 else 0}"))])
+  | ["store", pw] =>
+    match unhex? pw with
+    | some pw => if pw.contains 0 then (s, ["bad-op"]) else (s, [hex (Des.storePasswd Gen.C05.fixedkey pw)])
+    | none => (s, ["bad-op"])
+  | ["load", f] =>
+    match unhex? f with
+    | some f =>
+      match Des.decryptPasswdFile Gen.C05.fixedkey f with
+      | some pw => (s, [hex pw])
+      | none => (s, ["null"])
+    | none => (s, ["bad-op"])
+  | _ => (s, ["bad-op"])
+
+def main : IO Unit := runDriver ({} : DState) dstep
